@@ -86,5 +86,42 @@ PROPS.update({
     'C15': P('other', _GRAPH_EXPL, _GRAPH_B, _GRAPH_TRUST, ['constructor atomicity is a known finding (A-12)'], design_ref='8/C15'),
     'C16': P('other', _GRAPH_EXPL, _GRAPH_B, _GRAPH_TRUST, design_ref='8/C16'),
 })
+PROPS.update({
+    'C18': P('other', 'contract-based deductive verification of the query code: the nested function _ImmutableTaskList.__call__.search is symbolically executed from the real source (loop over the keyword items, eleven '
+             'suffix tests, slices, dynamically typed comparisons) and proved to return True exactly if every filter holds under the longest-matching-suffix reading of the property - for all keyword strings (SMT string '
+             'theory, opaque/reveal for the quantified invariant); __get_task_attribute is proved to return the value of every public attribute incl. the property-backed id, estimate, spent, parent_id and None when lacking. '
+             'Level `other`: the comprehension in __call__, bulk __setattr__ and remove_all are covered by the bounded stand-in only.',
+             ['_ImmutableTaskList.__call__ (list comprehension over search)', '_ImmutableTaskList.__setattr__', '_TaskList.remove_all', 'WBS.remove_all'],
+             ['library contracts (L): rich comparisons, `in` and re.search on dynamically typed values are uninterpreted predicates', 'SMT string theory of z3/cvc5'], design_ref='8/C18'),
+    'C20': P('other', 'contract-based deductive verification of utils.py with an abstract text theory (len, visible length, concatenation, spaces): colored_text has visible width max(len(text), width); '
+             '_TextTableRow.repr has visible width sum(width_i + 2) plus the borders, for every number of columns (loop invariant) given that every cell fits its column. Level `other`: TextTable.text_repr '
+             '(column widths = longest cell, one line per row), _Repr (rows = depth-first listing, indentation, link cells) and the usage table are covered by the bounded stand-in only.',
+             ['TextTable.text_repr', '_Repr.repr / __print_task_subtree / __get_field_value', 'ResourceUsageReport.__repr__'],
+             ['abstract text theory T3: additive len/vis equations for str concatenation and repetition', 'pre-condition: bg_color is None at every call (true of all call sites in the repository)'], design_ref='8/C20'),
+    'C13': P('other', 'contract-based deductive verification of the field-level inverse pairs: the five cell parsers of csv_io.py are proved against their specification, and for every default column the cell '
+             'expression of write_csv (taken from the real AST) rendered by the csv writer and read back by the parser specification is proved equivalent to the field (None ~ empty text); the TaskRaw fields built by '
+             'tasks_to_raws are proved to be the task values, parent_id = id of the reported parent for all ids (0 and negative included). Level `other`: predecessor_ids join/split, custom columns, raws_to_wbs (rebuild of '
+             'hierarchy and links), the fix-point and BOM clauses are covered by the bounded stand-in only.',
+             ['__parse_predecessors', '__parse_header', 'read_csv / write_csv loops', 'raws_to_wbs', 'custom attribute columns'],
+             ['library contracts (L): csv.reader(csv.writer(rows)) = rows; csv renders None as empty, others by str(); float(str(x)) = x; int(str(i)) = i; strptime(strftime(d)) = d for day-precision dates 1969-2068 (enumerated completely in the thorough tier)'],
+             ['min_start is not read back (known finding A-27)'], design_ref='8/C13'),
+    'C12': P('other', 'contract-based deductive verification of the two memoised recursions of CriticalPathCalculator: __forward / __backward are proved (recursion by contract, termination by rank, loop invariants) to '
+             'establish the Bellman equations ES(n) = max(0, max(ES(l.start) + l.units)) and LF(n) = min(LF(l.end) - l.units) (ES(n) at sinks) for every node they set, never to change a value once set, and to be free of None arithmetic. '
+             'Level `other`: the construction of the network from the WBS (summary / inherited dependencies), the float test of calc and the mathematical lemma `Bellman solution = longest path, zero float = on a longest chain` are '
+             'outside the contracts; the bounded stand-in compares critical_path() with an exact rational longest-path computation.',
+             ['CriticalPathCalculator.__init__ / __insert_task / __add_work / __connect (network construction)', 'CriticalPathCalculator.calc (selection, tolerance)', '_find_clusters'],
+             ['mathematical lemma (not machine-checked here): on a finite DAG the Bellman solution is the longest-path length'], design_ref='8/C12'),
+    'C10': P('other', 'contract-based deductive verification of Task.clone: symbolically executed from the real source with instance attributes as a per-object map; proved: the copy is a new object, same id / estimate / spent, '
+             'exactly the public instance attributes of the source with equal values (loop invariant over the keys of __dict__), no relations, source and all other tasks unchanged. Level `other`: WBS.__clone_tasks / __clone / subtree '
+             '(re-wiring hierarchy, sibling order and links, owner, WBS attributes) are covered by the bounded stand-in only.',
+             ['WBS.__clone_tasks', 'WBS.__clone', 'WBS.clone', 'WBS.subtree'], ['contract of the Task constructor with id/estimate/spent keywords (fresh object, default public attributes, no relations)'],
+             ['pre-condition: clone() is called without extra keyword arguments (as WBS.__clone_tasks does)', 'outside task sharing an id with a member: known finding A-22'], design_ref='8/C10'),
+    'C19': P('other', 'reduced scope (DESIGN.md section 10). Contract-based deductive verification of the value-level clauses that live in pjplan code: MermaidGantt.__mermaid_task_state returns the milestone flag exactly for '
+             'milestones and the done/active token from the dates; the progress computation of DhtmlxGantt.__data (statements taken from the real AST) yields a value within 0..1 for every scheduled task and never raises. '
+             'Everything about the emitted documents - one line / entry per task, edges, link numbering, JSON well-formedness, escaping - is decided by the bounded stand-in at the lexical level; what Mermaid, a browser or DHTMLX make of the '
+             'text cannot be expressed by a contract on pjplan functions.',
+             ['MermaidGantt.__src / __mermaid_task / __styles', 'MermaidNetwork.__src', 'DhtmlxGantt.__data (document structure) / __task_classes / __columns / to_html', '_repr_html_'],
+             ['library contracts (L): json.dumps, html.escape, string.Template, strftime'], ['task names containing an arrow add an edge to the network line: known finding A-29'], design_ref='8/C19, 10'),
+})
 for _p in ['C01', 'C02', 'C03', 'C04', 'C05', 'C06', 'C07', 'C08', 'C09', 'C10', 'C11', 'C12', 'C13', 'C14', 'C15', 'C16', 'C18', 'C19', 'C20']:
     PROPS.setdefault(_p, P('other', 'see MANIFEST.json', design_ref='8/' + _p))
